@@ -167,6 +167,23 @@ func init() {
 		}
 		return nil
 	})
+	v("Observe", func(in *Interp, a []Value) Value {
+		t := a[1].(*Term)
+		val := "<sym>"
+		if t.konst {
+			val = fmt.Sprint(t.cv)
+		}
+		in.observed = append(in.observed, in.conStr(a[0], "Observe")+" "+val)
+		return nil
+	})
+	v("ObserveStr", func(in *Interp, a []Value) Value {
+		val := "<sym>"
+		if s, ok := a[1].(Str).Concrete(); ok {
+			val = fmt.Sprintf("%q", s)
+		}
+		in.observed = append(in.observed, in.conStr(a[0], "ObserveStr")+" "+val)
+		return nil
+	})
 	v("Yield", func(in *Interp, a []Value) Value { in.sched.yield(); return nil })
 	v("Settle", func(in *Interp, a []Value) Value {
 		s := in.sched
